@@ -16,8 +16,12 @@ import (
 	"fmt"
 	"log/slog"
 	"os"
+	"runtime"
+	"sort"
 	"strings"
 	"sync"
+	"sync/atomic"
+	"syscall"
 	"testing"
 	"testing/synctest"
 	"time"
@@ -37,6 +41,11 @@ type op struct {
 	P   int    `json:"p,omitempty"`
 	C   int    `json:"c,omitempty"`
 	Via string `json:"via,omitempty"` // kafail: "write" (send error) | "timeout"
+	// Hold: stop the teardown thread just before the disconnect callback (after the
+	// manager's locked bookkeeping); a later "notify" step lets it continue.
+	Hold bool `json:"hold,omitempty"`
+
+	blockedByNotify bool
 }
 
 type scenario struct {
@@ -52,6 +61,7 @@ type snapT struct {
 	Routes []int  // per peer: routes whose next hop is the peer
 	Relays []int  // per peer: transit streams that involve the peer
 	CbLog  []int  // peers for which the agent's disconnect callback ran, in order
+	Skip   bool   // no observation was possible after this step (it completed together with the next one)
 }
 
 type observed struct {
@@ -144,17 +154,14 @@ func runScenario(t *testing.T, sc scenario) (obs observed, fails []failure) {
 		}
 		tr := &peerfam.Transport{}
 		var autoOps []op
-		inScript := false
 		tr.DialFn = func(ctx context.Context, addr string) (transport.PeerConn, error) {
 			var p int
 			fmt.Sscanf(addr, "peer%d.mesh", &p)
 			c := newConn(p, true)
-			if !inScript {
-				// a dial started by the real reconnector: it becomes a script step of its own
-				cmu.Lock()
-				autoOps = append(autoOps, op{K: "dial", P: p, C: c.Tag})
-				cmu.Unlock()
-			}
+			// a dial started by the real reconnector: it becomes a script step of its own
+			cmu.Lock()
+			autoOps = append(autoOps, op{K: "dial", P: p, C: c.Tag})
+			cmu.Unlock()
 			return c, nil
 		}
 		if sc.Persistent {
@@ -279,30 +286,108 @@ func runScenario(t *testing.T, sc scenario) (obs observed, fails []failure) {
 			}
 		}
 
-		for _, o := range sc.Ops {
+		// --- scheduling point: a disconnect notification can be held just before the callback
+		var hmu sync.Mutex
+		holdNext := false
+		var lastHeld chan struct{}
+		held := map[int]chan struct{}{} // connection tag -> release channel
+		peer.VerifYieldHook = func(point string) {
+			if point != "peer.handleDisconnect.notify" {
+				return
+			}
+			hmu.Lock()
+			if !holdNext {
+				hmu.Unlock()
+				return
+			}
+			holdNext = false
+			ch := make(chan struct{})
+			lastHeld = ch
+			hmu.Unlock()
+			<-ch
+		}
+		defer func() { peer.VerifYieldHook = nil }()
+
+		var runOp func(o op)
+		releaseAll := func() {
+			tags := []int{}
+			for tag := range held {
+				tags = append(tags, tag)
+			}
+			sort.Ints(tags)
+			for _, tag := range tags {
+				runOp(op{K: "notify", C: tag})
+			}
+		}
+		// spin (real time, no virtual-time primitive) until done() or the budget is exhausted
+		spin := func(done func() bool, budget int) bool {
+			for i := 0; i < budget; i++ {
+				if done() {
+					return true
+				}
+				runtime.Gosched()
+				if i%64 == 63 {
+					// real-time pause (time.Sleep would be virtual inside the bubble)
+					ts := syscall.Timespec{Nsec: 20000}
+					syscall.Nanosleep(&ts, nil)
+				}
+			}
+			return done()
+		}
+
+		runOp = func(o op) {
 			before := look()
 			staleFor := -1 // peer whose current connection must not be harmed by this step
+			sig := "stale-teardown-harms-live-connection"
 			switch o.K {
 			case "dial", "accept":
 				c := newConn(o.P, o.K == "dial")
 				o.C = c.Tag
 				var pc *peer.Connection
 				var err error
-				if o.K == "dial" {
-					inScript = true
-					tr2 := &peerfam.Transport{DialFn: func(ctx context.Context, addr string) (transport.PeerConn, error) { return c, nil }}
-					pc, err = m.ConnectWithTransport(context.Background(), tr2, addrName(o.P))
-					inScript = false
-				} else {
-					pc, err = m.Accept(context.Background(), c)
+				var fin atomic.Bool
+				go func() {
+					if o.K == "dial" {
+						tr2 := &peerfam.Transport{DialFn: func(ctx context.Context, addr string) (transport.PeerConn, error) { return c, nil }}
+						pc, err = m.ConnectWithTransport(context.Background(), tr2, addrName(o.P))
+					} else {
+						pc, err = m.Accept(context.Background(), c)
+					}
+					fin.Store(true)
+				}()
+				if len(held) > 0 {
+					// a notification is in progress: either the registration completes anyway (no
+					// serialisation: the window is open) or it waits for the notification to end
+					if !spin(fin.Load, 4000) {
+						o.blockedByNotify = true
+						tags := []int{}
+						for tag := range held {
+							tags = append(tags, tag)
+						}
+						sort.Ints(tags)
+						for _, tag := range tags {
+							close(held[tag])
+							delete(held, tag)
+						}
+						if !spin(fin.Load, 4000000) {
+							panic("registration did not complete after the held notification was released")
+						}
+						synctest.Wait()
+						for _, tag := range tags {
+							obs.Ops = append(obs.Ops, op{K: "notify", C: tag})
+							obs.Snaps = append(obs.Snaps, snapT{Skip: true})
+						}
+					}
+				} else if !spin(fin.Load, 4000000) {
+					panic("registration did not complete")
 				}
+				synctest.Wait()
 				if err != nil {
 					fail("handshake-error", "%v: %v", o, err)
 				}
 				cmu.Lock()
 				pconn[c.Tag] = pc
 				cmu.Unlock()
-				synctest.Wait()
 				// a rejected duplicate must be closed and must never deliver
 				if pc != nil && !m.VerifRegistered(pc) {
 					if !c.IsClosed() {
@@ -316,11 +401,11 @@ func runScenario(t *testing.T, sc scenario) (obs observed, fails []failure) {
 					}
 					readerGone[c.Tag] = true
 				}
-			case "kafail", "readerr", "frame":
+			case "kafail", "readerr", "frame", "notify":
 				cmu.Lock()
 				if o.C >= len(conns) {
 					cmu.Unlock()
-					continue
+					return
 				}
 				c := conns[o.C]
 				pc := pconn[o.C]
@@ -332,10 +417,20 @@ func runScenario(t *testing.T, sc scenario) (obs observed, fails []failure) {
 					}
 					o.P = p
 				}
+				if (o.K == "kafail" || o.K == "readerr") && len(held) > 0 {
+					// another teardown could block on the manager's locks (not a durable block): finish the held ones first
+					releaseAll()
+					before = look()
+				}
 				switch o.K {
 				case "kafail":
 					if c.IsClosed() || pc == nil {
-						continue
+						return
+					}
+					if o.Hold {
+						hmu.Lock()
+						holdNext = true
+						hmu.Unlock()
 					}
 					if o.Via == "timeout" {
 						pc.VerifSetLastActivity(time.Now().Add(-kaInterval - kaTimeout - time.Second))
@@ -347,6 +442,14 @@ func runScenario(t *testing.T, sc scenario) (obs observed, fails []failure) {
 					el := time.Since(regTime[o.C]) % kaInterval
 					time.Sleep(kaInterval - el)
 				case "readerr":
+					if readerGone[o.C] {
+						return
+					}
+					if o.Hold {
+						hmu.Lock()
+						holdNext = true
+						hmu.Unlock()
+					}
 					if c.IsClosed() {
 						c.S.Release()
 					} else {
@@ -355,12 +458,32 @@ func runScenario(t *testing.T, sc scenario) (obs observed, fails []failure) {
 					readerGone[o.C] = true
 				case "frame":
 					if readerGone[o.C] {
-						continue
+						return
 					}
 					advertise(c)
 					if c.IsClosed() {
 						readerGone[o.C] = true
 					}
+				case "notify":
+					ch, ok := held[o.C]
+					if !ok {
+						return
+					}
+					delete(held, o.C)
+					close(ch)
+					sig = "late-notification-harms-live-connection"
+				}
+				if o.K == "kafail" || o.K == "readerr" {
+					synctest.Wait()
+					hmu.Lock()
+					if o.Hold && !holdNext && lastHeld != nil {
+						held[o.C] = lastHeld
+						lastHeld = nil
+					} else {
+						o.Hold = false // nothing reached the notification (stale teardown)
+					}
+					holdNext = false
+					hmu.Unlock()
 				}
 			case "disconnect":
 				m.Disconnect(peerfam.AgentIDOf(o.P))
@@ -372,9 +495,12 @@ func runScenario(t *testing.T, sc scenario) (obs observed, fails []failure) {
 				ag.VerifPeerfamRelayInsert(peerfam.AgentIDOf(o.P), relaySeq, other, relaySeq+500000)
 			case "adv":
 				// only time passes; what the real reconnector does meanwhile is recorded as steps of its own
+				if len(held) > 0 {
+					releaseAll()
+				}
 				time.Sleep(time.Duration(o.C) * time.Second)
 				flushAuto()
-				continue
+				return
 			default:
 				panic("unknown op " + o.K)
 			}
@@ -383,7 +509,7 @@ func runScenario(t *testing.T, sc scenario) (obs observed, fails []failure) {
 			if staleFor >= 0 {
 				p := staleFor
 				if after.reg[p] != before.reg[p] || after.routes[p] < before.routes[p] || after.relays[p] < before.relays[p] {
-					fail("stale-teardown-harms-live-connection",
+					fail(sig,
 						"%v on the already replaced connection c%d of peer %d: registered c%d->c%d, routes %d->%d, relays %d->%d",
 						o, o.C, p, before.reg[p], after.reg[p], before.routes[p], after.routes[p], before.relays[p], after.relays[p])
 				}
@@ -391,6 +517,10 @@ func runScenario(t *testing.T, sc scenario) (obs observed, fails []failure) {
 			checkOpenRegistered(o)
 			flushAuto()
 		}
+		for _, o := range sc.Ops {
+			runOp(o)
+		}
+		releaseAll()
 
 		// teardown: let every held reader go, then stop the agent's components
 		cmu.Lock()
@@ -428,6 +558,13 @@ func witnesses() []scenario {
 			{K: "adv", C: 2}, // the real reconnector redials after 1 s
 			{K: "frame", C: 1},
 			{K: "readerr", C: 0}}},
+		{Name: "w-notification-window", NPeers: 1, Ops: []op{
+			{K: "dial", P: 0}, {K: "frame", C: 0},
+			{K: "readerr", C: 0, Hold: true}, // c0's own teardown: unregistered, callback not yet run
+			{K: "accept", P: 0},              // the peer is back before the callback runs
+			{K: "frame", C: 1}, {K: "relay", P: 0},
+			{K: "notify", C: 0}, // the callback of c0 now wipes what belongs to c1
+			{K: "frame", C: 1}}},
 		{Name: "w-explicit-disconnect-then-reader", NPeers: 1, Ops: []op{
 			{K: "dial", P: 0}, {K: "frame", C: 0}, {K: "disconnect", P: 0}, {K: "accept", P: 0}, {K: "frame", C: 1}, {K: "readerr", C: 0}}},
 	}
@@ -452,9 +589,11 @@ func genScenario(rd *vh.Rand, i int) scenario {
 			sc.Ops = append(sc.Ops, op{K: "accept", P: p})
 			nconn++
 		case x < 42:
-			sc.Ops = append(sc.Ops, op{K: "kafail", C: c, Via: []string{"write", "timeout"}[rd.Intn(2)]})
-		case x < 58:
-			sc.Ops = append(sc.Ops, op{K: "readerr", C: c})
+			sc.Ops = append(sc.Ops, op{K: "kafail", C: c, Via: []string{"write", "timeout"}[rd.Intn(2)], Hold: rd.Chance(1, 3)})
+		case x < 56:
+			sc.Ops = append(sc.Ops, op{K: "readerr", C: c, Hold: rd.Chance(1, 3)})
+		case x < 60:
+			sc.Ops = append(sc.Ops, op{K: "notify", C: c})
 		case x < 80:
 			sc.Ops = append(sc.Ops, op{K: "frame", C: c})
 		case x < 88:
@@ -475,9 +614,9 @@ func coqOp(o op) string {
 	case "dial", "accept":
 		return fmt.Sprintf("Connect %s", vh.CoqN(uint64(o.P)))
 	case "kafail":
-		return fmt.Sprintf("KaFail %s", vh.CoqNat(o.C))
+		return fmt.Sprintf("KaFail %s %s", vh.CoqNat(o.C), vh.CoqBool(o.Hold))
 	case "readerr":
-		return fmt.Sprintf("ReadErr %s", vh.CoqNat(o.C))
+		return fmt.Sprintf("ReadErr %s %s", vh.CoqNat(o.C), vh.CoqBool(o.Hold))
 	case "frame":
 		return fmt.Sprintf("Frame %s", vh.CoqNat(o.C))
 	case "disconnect":
@@ -486,8 +625,8 @@ func coqOp(o op) string {
 		return "DisconnectAll"
 	case "relay":
 		return fmt.Sprintf("Relay %s", vh.CoqN(uint64(o.P)))
-	case "adv":
-		return "Tick"
+	case "notify":
+		return fmt.Sprintf("Notify %s", vh.CoqNat(o.C))
 	}
 	panic("op")
 }
@@ -510,7 +649,11 @@ func coqCase(sc scenario, obs observed) string {
 		for _, b := range s.Closed {
 			cl = append(cl, vh.CoqBool(b))
 		}
-		snaps = append(snaps, fmt.Sprintf("(%s, %s, %s, %s, %s)", coqInts(s.Reg), vh.CoqList(cl), coqInts(s.Routes), coqInts(s.Relays), coqInts(s.CbLog)))
+		if s.Skip {
+			snaps = append(snaps, "None")
+			continue
+		}
+		snaps = append(snaps, fmt.Sprintf("Some (%s, %s, %s, %s, %s)", coqInts(s.Reg), vh.CoqList(cl), coqInts(s.Routes), coqInts(s.Relays), coqInts(s.CbLog)))
 	}
 	return fmt.Sprintf("mkCase %s %s\n  %s", vh.CoqNat(sc.NPeers), vh.CoqList(ops), vh.CoqList(snaps))
 }
